@@ -697,10 +697,13 @@ namespace bloch::runtime {
             auto fit = scope.find(name);
             if (fit != scope.end()) {
                 Value newVal = v;
-                if (fit->second.value.type == Value::Type::Object &&
-                    newVal.type == Value::Type::Object && newVal.objectValue &&
-                    !fit->second.value.className.empty()) {
-                    newVal.className = fit->second.value.className;
+                // The slot keeps the static class it was declared with, whatever it currently
+                // holds: an object, null, or nothing after 'destroy'.
+                const Value& existing = fit->second.value;
+                if ((existing.type == Value::Type::Object || existing.type == Value::Type::Void) &&
+                    (newVal.type == Value::Type::Object || newVal.type == Value::Type::Void) &&
+                    !existing.className.empty()) {
+                    newVal.className = existing.className;
                 }
                 fit->second.value = newVal;
                 fit->second.initialized = true;
@@ -714,8 +717,9 @@ namespace bloch::runtime {
                 if (field && field->offset < thisObj->fields.size()) {
                     Value newVal = v;
                     const Value& existing = thisObj->fields[field->offset];
-                    if (existing.type == Value::Type::Object &&
-                        newVal.type == Value::Type::Object && newVal.objectValue &&
+                    if ((existing.type == Value::Type::Object ||
+                         existing.type == Value::Type::Void) &&
+                        (newVal.type == Value::Type::Object || newVal.type == Value::Type::Void) &&
                         !existing.className.empty()) {
                         newVal.className = existing.className;
                     }
@@ -727,8 +731,9 @@ namespace bloch::runtime {
             if (field && owner && field->offset < owner->staticStorage.size()) {
                 Value newVal = v;
                 const Value& existing = owner->staticStorage[field->offset];
-                if (existing.type == Value::Type::Object && newVal.type == Value::Type::Object &&
-                    newVal.objectValue && !existing.className.empty()) {
+                if ((existing.type == Value::Type::Object || existing.type == Value::Type::Void) &&
+                    (newVal.type == Value::Type::Object || newVal.type == Value::Type::Void) &&
+                    !existing.className.empty()) {
                     newVal.className = existing.className;
                 }
                 owner->staticStorage[field->offset] = newVal;
